@@ -56,6 +56,7 @@ class Run:
         self.solver_ms = 0.0
         self.hashes = {}
         self.global_writes = {}     # shipped back by worker processes
+        self.dropped = []           # module-level statements dropped in worker processes
         self.native_replays = 0     # replays of decoder refutations are capped per run (the rest is reported without a replayed input)
         os.makedirs(os.path.join(VERIF, 'replays', pid), exist_ok=True)
 
@@ -137,7 +138,29 @@ class Run:
             self.add(name, 'unknown', 'write tracking', 0, fn, what, kind='frame')
             self.undecide(name, what + ' (no failing history found: the per-function analysis assumes state-free functions)')
 
+    def extraction_obligation(self):
+        """the verified text is the code that runs only if every module-level statement of the repository was interpreted: a
+        dropped statement (construct outside the subset) may have built part of a table, so the run is undecided"""
+        from . import values
+        dropped = [list(d) for d in values.DROPPED]
+        for d in self.dropped:
+            if d not in dropped:
+                dropped.append(d)
+        name = '%s/extraction/every-module-level-statement-interpreted' % self.pid
+        if not values.GLOBAL_OBJS and not dropped:
+            return
+        if not dropped:
+            self.add(name, 'proved', 'module loader', 0, 'module top levels of the repository', kind='extraction')
+        else:
+            why = '; '.join('%s line %s (%s)' % (d[0], d[1], d[3]) for d in dropped[:5])
+            self.add(name, 'unsupported', 'module loader', 0, 'module top levels of the repository', why, kind='extraction')
+            self.undecide(name, 'module-level statements outside the subset were dropped: ' + why)
+
     def finish(self, checker_cmd=None):
+        try:
+            self.extraction_obligation()
+        except Exception as ex:  # noqa
+            self.engine_error('extraction obligation crashed: %r' % (ex,))
         try:
             self.frame_obligation()
         except Exception as ex:  # noqa
